@@ -16,7 +16,7 @@ inductive Sc
   | c (b : Bytes) | b (b : Bytes) | xc | xb
 
 def parseStep (s : String) : Option Sc :=
-  if s == "xc" then some .xc else if s == "xb" then some .xb
+  if s == "xc" || s == "hc" then some .xc else if s == "xb" || s == "hb" then some .xb
   else if s.startsWith "c:" || s.startsWith "C:" then (bytesOfHex (s.drop 2).toString).map .c
   else if s.startsWith "b:" || s.startsWith "B:" then (bytesOfHex (s.drop 2).toString).map .b
   else none
@@ -44,8 +44,61 @@ def runWrite (v ns impl : String) : Ans :=
       verdict := if impl == spec then "ok" else "FAIL:tls-write-count-contract"
       tags := ["wr", v] ++ (if lens.any (· > 1) then ["nt"] else []) ++ (if lens.any (· > 16384) then ["multi-record"] else []) }
 
+def wsProtos : List String := ["ws", "wss", "wss0"]
+def tunnelProtos : List String := ["ws", "wss", "wss0", "tls", "tlsr", "t10c", "t11c", "t12c", "t12g"]
+
+/-- what bfe_server's response writer adds to the 101 response (the model mirrors the code that exists) -/
+def wsSuffixModel : String := " hs=ok x=content-type+date+transfer-encoding"
+
+/-- split an implementation result of a websocket case into the stream part and the two handshake fields -/
+def splitWs (impl : String) : Option (String × String × String) :=
+  match impl.splitOn " hs=" with
+  | [base, rest] =>
+    match rest.splitOn " x=" with
+    | [hs, x] => some (base, hs, x)
+    | _ => none
+  | _ => none
+
+/-- spec for the upgrade handshake: nothing of the request / the 101 response is lost or altered, and bfe does not
+    add message-framing headers to a 101 response (RFC 7230 §3.3.1/§3.3.2) -/
+def wsVerdict (hs x : String) : Option String :=
+  if hs != "ok" then some "ws-handshake-header-lost"
+  else if (x.splitOn "+").any (fun h => h == "transfer-encoding" || h == "content-length") then some "ws-101-framing-headers"
+  else none
+
+/-- `big;p=<proto>;c=<n>;b=<n>;slow=<c|b|->;x=<c|b>` -/
+def runBig (fields : List String) (impl : String) : Ans :=
+  let get (k : String) : Option String := fields.findSome? fun f => stripKey f (k ++ "=")
+  match get "p", (get "c").bind String.toNat?, (get "b").bind String.toNat?, get "slow", get "x" with
+  | some p, some nc, some nb, some slow, some _ =>
+    if !tunnelProtos.contains p then { model := "bad-op", verdict := "skip" } else
+    let base := "B=" ++ toString nc ++ "/ok C=" ++ toString nb ++ "/ok bclosed=1 cclosed=1"
+    let ws := wsProtos.contains p
+    let m := base ++ (if ws then wsSuffixModel else "")
+    let (ibase, wsv) : String × Option String :=
+      if ws then
+        match splitWs impl with
+        | some (b, hs, x) => (b, wsVerdict hs x)
+        | none => (impl, some "unparsable-result")
+      else (impl, none)
+    let verdict :=
+      if ibase != base then
+        (match ibase.splitOn " " with
+         | [fb, fc, _, _] =>
+           if fb != "B=" ++ toString nc ++ "/ok" then "FAIL:big-c2b-differ"
+           else if fc != "C=" ++ toString nb ++ "/ok" then "FAIL:big-b2c-differ"
+           else "FAIL:big-close-not-propagated"
+         | _ => "FAIL:harness-" ++ impl)
+      else match wsv with
+        | some c => "FAIL:" ++ c
+        | none => "ok"
+    { model := m, verdict := verdict
+      tags := ["big", p, "slow-" ++ slow, "total-" ++ sizeTag (nc + nb)] ++ (if nc + nb > 0 then ["nt"] else []) }
+  | _, _, _, _, _ => { model := "bad-op", verdict := "skip" }
+
 def run (op impl : String) : Ans :=
   match op.splitOn ";" with
+  | "big" :: fields => runBig fields impl
   | ["wr", fv, fn] =>
     match stripKey fv "v=", stripKey fn "n=" with
     | some v, some ns => runWrite v ns impl
@@ -55,8 +108,9 @@ def run (op impl : String) : Ans :=
     | some hpc, some hpb, some hs =>
       match bytesOfHex hpc, bytesOfHex hpb, (if hs == "-" then some [] else (hs.splitOn ",").mapM parseStep) with
       | some pc, some pb, some script =>
-        if !(["ws", "tls", "tlsr", "t10c", "t11c", "t12c", "t12g"].contains proto) then { model := "bad-op", verdict := "skip" } else
-        -- steps up to and including the first close; a script without close ends with the client closing
+        if !(tunnelProtos.contains proto) then { model := "bad-op", verdict := "skip" } else
+        let ws := wsProtos.contains proto
+        -- steps up to and including the first (half-)close; a script without close ends with the client closing
         let rec cut : List Sc → List Sc
           | [] => [.xc]
           | .xc :: _ => [.xc]
@@ -68,17 +122,23 @@ def run (op impl : String) : Ans :=
           | .b b => .send false b
           | .xc => .close true
           | .xb => .close false
-        -- ws: the pipelined bytes sit in bfe's bufio readers (prefixes); tls: they are ordinary first writes
-        let fin := if proto == "ws" then runScript (St.init pc pb 0) steps
+        -- ws*: the pipelined bytes sit in bfe's bufio readers (prefixes); tls*: they are ordinary first writes
+        let fin := if ws then runScript (St.init pc pb 0) steps
                    else runScript (St.init [] [] 2) (.send true pc :: .send false pb :: steps)
-        let m := render fin.c2b.out fin.b2c.out fin.shut fin.shut
+        let m := render fin.c2b.out fin.b2c.out fin.shut fin.shut ++ (if ws then wsSuffixModel else "")
         -- spec oracle
         let expB := pc ++ (sc.map fun | .c b => b | _ => []).flatten
         let expC := pb ++ (sc.map fun | .b b => b | _ => []).flatten
         let spec := render expB expC true true
+        let (ibase, wsv) : String × Option String :=
+          if ws then
+            match splitWs impl with
+            | some (b, hs, x) => (b, wsVerdict hs x)
+            | none => (impl, some "unparsable-result")
+          else (impl, none)
         let cls :=
           if impl.startsWith "err:" || impl == "HANG" || impl.startsWith "PANIC" then "harness-" ++ impl
-          else match (impl.splitOn " ") with
+          else match (ibase.splitOn " ") with
             | [fb, fc, fbc, fcc] =>
               if fb != "B=" ++ hexField expB then
                 (if proto == "tlsr" then "c2b-bytes-lost-at-handshake" else "c2b-bytes-differ")
@@ -88,11 +148,15 @@ def run (op impl : String) : Ans :=
               else "other"
             | _ => "unparsable-result"
         let closer := if sc.any (fun | .xb => true | _ => false) then "backend-closes" else "client-closes"
+        let half := if hs.endsWith "hc" || hs.endsWith "hb" then ["half-close"] else []
         let nsend := (sc.filter fun | .c _ => true | .b _ => true | _ => false).length
         { model := m
-          verdict := if impl == spec then "ok" else "FAIL:" ++ cls
+          verdict := if ibase != spec then "FAIL:" ++ cls
+                     else match wsv with
+                       | some c => "FAIL:" ++ c
+                       | none => "ok"
           tags := [proto, closer, "pc-" ++ sizeTag pc.length, "pb-" ++ sizeTag pb.length,
-                   "total-" ++ sizeTag (expB.length + expC.length), "sends-" ++ toString nsend]
+                   "total-" ++ sizeTag (expB.length + expC.length), "sends-" ++ toString nsend] ++ half
                   ++ (if expB.length + expC.length > 0 then ["nt"] else []) }
       | _, _, _ => { model := "bad-op", verdict := "skip" }
     | _, _, _ => { model := "bad-op", verdict := "skip" }
